@@ -1,4 +1,5 @@
 import TracklibVerif.Model.PartitionArr
+import TracklibVerif.Model.MinCircle
 import TracklibVerif.Drv.Util
 /-! Driver handler for C12. A matrix is `;`-separated rows of `,`-separated scalars; `<s>` selects the scalar:
 `q` = exact rationals `p/q`, `f` = IEEE doubles as bit patterns.
@@ -16,6 +17,8 @@ import TracklibVerif.Drv.Util
   simplify <s> <smode> <sig> <glob> <WD> <WG> → `simplifyFree` (smode 7, 8: `<sig>`/`WD` describe the function given as
                                   `tolerance`) or `simplifyBuiltin` (smode 4, 5, 6: `WG` is the built-in cost at the tolerance given,
                                   `<glob>` says whether the tolerance is `None`); other smode: `bad-request`
+  simplifyc <s> <smode> <sig> <glob> <WD> <WG> → `collectionSimplifyFree` (smode 7, 8) on a collection of two such tracks: the two
+                                  index lists joined by `|`, or the first error
   matrix <s> <W>                → `segMatrixL` (loop form) of `optimalSegmentation` for `cost(track,i,j-1) = W[i][j]`, all rows
   stops <s> <far> <short> <small> <keep>
                                 → `<reward matrix> <segmentation> <stops>`: `stopsMatrix` (loop form with the `break`),
@@ -26,7 +29,8 @@ import TracklibVerif.Drv.Util
                                   `circ[i][e]` (a negative entry = `minCircle` returned `None`) are scalars compared by the model with
                                   `<diameter>` and `<duration>` (the harness passes squared lengths against the squared diameter)
   stopsd q <diameter> <duration> <downsampling> <track> <resampled> <circ2> <circA> <cx> <cy>
-                                → `findStopsGlobalPyA` (= `findStopsGlobalPy`, theorem `find_stops_array_form`), from the caller's arguments: `<track>` and `<resampled>` (`_` when not asked for)
+                                → `findStopsGlobalPyA` (= `findStopsGlobalPy`, theorem `find_stops_array_form`), from the caller's arguments
+                                  (`<downsampling>` = `v1` / `v0`: the dispatcher `findStopsPy` called with `verbose` True / False — `boolNum`): `<track>` and `<resampled>` (`_` when not asked for)
                                   are rows `x,y,z,t`; the model chooses the track (`downsampling > 1`), computes the squared planimetric
                                   distances and the durations itself and applies the three tests and the final filter;
                                   `circ2[i][e]` / `circA[i][e]` = squared `2 * radius` of `minCircle` in the row loops / in the final
@@ -34,6 +38,11 @@ import TracklibVerif.Drv.Util
                                   `<reward matrix> <segmentation> <stops> <enc>`, a stop being `a-e:id_ini:id_end:nb_points`, `<enc>` = 1
                                   iff every circle of `circ2` encloses the observations of its segment in the plane (`enclosedB`: the
                                   hypothesis of `stops_criterion` / `find_stops_global`, checked here); exact rationals only.
+  mincircle q <eps> <points> <draws>
+                                → `minCircleOfPoints` (`Model/MinCircle.lean`): `<points>` rows `x,y,z`, `<draws>` the values behind
+                                  the successive `random.randint` calls (`draws[k % len]`, reduced modulo `len(P)` by the model).
+                                  Reply `none` | `random` | `stuck` | `<cx> <cy> <r²> <draws made> <enc>` (`enc` = 1 iff the circle
+                                  encloses every point, `≤`); exact rationals only.
 errors: `err:index` (one row: `backward` indexes an empty table), `err:value` (no row: negative dimension). -/
 namespace TV.Drv.C12
 open TV.Partition TV.Drv
@@ -105,6 +114,14 @@ def runPy {α} [Add α] [LT α] [DecidableLT α] (zero : α) (cmd : String) (mod
         match r with
         | some r => showRes r
         | none => "bad-request"
+      | "simplifyc" =>
+        -- `TrackCollection([track, track']).simplify(cost, smode)` on two tracks of the same `size` observations
+        if mode == 7 || mode == 8 then
+          match collectionSimplifyFree zero c mode [List.range size, List.range size] with
+          | some (.ok rs) => joinWith "|" (rs.map (showList toString))
+          | some (.error e) => showErr e
+          | none => "bad-request"
+        else "bad-request"
       | _ => "bad-request"
     | _, _ => "bad-request"
 
@@ -169,7 +186,27 @@ def runStopsD (diameter duration ds : Rat) (track resampled circ circA cxs cys :
         s!"{showListList showRat mat} {showList toString seg} {joinWith "," items} {showBool enc}"
   | _, _ => "bad-request"
 
+def mincircle (args : List String) : String :=
+  match args with
+  | [s, eps, pts, draws] =>
+    if s != "q" then "bad-request"
+    else match rat? eps, ratListList? pts, natList? draws with
+      | some e, some rows, some dr =>
+        if dr.isEmpty then "bad-request" else
+        match rows.mapM (fun r => match r with | [x, y, z] => some (TV.MinCircle.Pt.mk x y z) | _ => none) with
+        | none => "bad-request"
+        | some P =>
+          let a := dr.toArray
+          match TV.MinCircle.minCircleOfPoints e (fun k => a[k % a.size]!) P with
+          | (.none, _) => "none"
+          | (.random, _) => "random"
+          | (.stuck, _) => "stuck"
+          | (.circ c, k) => s!"{showRat c.cx} {showRat c.cy} {showRat c.r2} {k} {showBool (TV.MinCircle.encloses c P)}"
+      | _, _, _ => "bad-request"
+  | _ => "bad-request"
+
 def handle (cmd : String) (args : List String) : String :=
+  if cmd == "mincircle" then mincircle args else
   match args with
   | [s, mat] =>
     if cmd != "matrix" then "bad-request"
@@ -221,7 +258,8 @@ def handle (cmd : String) (args : List String) : String :=
   | [s, dia, du, ds, track, resampled, circ, circA, cxs, cys] =>
     if cmd != "stopsd" || s != "q" then "bad-request"
     else
-      match rat? dia, rat? du, rat? ds, ratListList? track, ratListList? resampled, ratListList? circ, ratListList? circA,
+      match rat? dia, rat? du, (if ds == "v1" then some (boolNum (0 : Rat) 1 true) else if ds == "v0" then some (boolNum (0 : Rat) 1 false)
+          else rat? ds), ratListList? track, ratListList? resampled, ratListList? circ, ratListList? circA,
         ratListList? cxs, ratListList? cys with
       | some a, some b, some c, some t, some r, some e, some k, some x, some y => runStopsD a b c t r e k x y
       | _, _, _, _, _, _, _, _, _ => "bad-request"
